@@ -1,0 +1,22 @@
+//go:build verif
+
+package harfbuzz
+
+// VerifPlan describes one cached shape plan (verification hook, C13).
+type VerifPlan struct {
+	Props    SegmentProperties
+	Features []Feature // the plan's own (normalised) copy
+	Key      [2]int    // GSUB / GPOS feature-variation indices
+}
+
+// VerifPlanCache returns the plans cached for `face`, in cache order.
+func (b *Buffer) VerifPlanCache(face Face) []VerifPlan {
+	var out []VerifPlan
+	for _, p := range b.planCache[face] {
+		out = append(out, VerifPlan{Props: p.props, Features: append([]Feature(nil), p.userFeatures...), Key: p.shaper.key})
+	}
+	return out
+}
+
+// VerifPlanFaces returns the number of faces having an entry in the plan cache.
+func (b *Buffer) VerifPlanFaces() int { return len(b.planCache) }
